@@ -212,6 +212,27 @@ def run_case(case, ctx):
     return {"pipeline": _run_pipeline, "exact": _run_exact, "sampled": _run_sampled}[case["kind"]](case, ctx)
 
 
+def _check_estimate(ctx, p, fam, d, op):
+    """estimate(h) is the self-normalised average of h over the particles under the collection's OWN log weights"""
+    import jax.numpy as jnp
+
+    lw = np.asarray(p.log_weights, dtype=np.float64)
+    if not np.all(np.isfinite(lw)):
+        return True
+    xs = np.asarray(p.traces.get_choices()["x"]).astype(np.int64)
+    w = np.exp(lw - lw.max())
+    w = w / w.sum()
+    for kk in range(fam["K"]):
+        got = float(p.estimate(lambda c, _k=kk: (c["x"] == _k).astype(jnp.float32)))
+        want = float(np.sum(w * (xs == kk)))
+        ctx.count("estimate_identities")
+        if abs(got - want) > 1e-5:
+            ctx.violation(f"{op}|estimate-not-weighted-average-under-own-weights",
+                          {**d, "h": f"1[x == {kk}]", "estimate": got, "reference": want, "log_weights": lw.tolist(), "x": xs.tolist()})
+            return False
+    return True
+
+
 def _lml_ref(acc, lw):
     lw = np.asarray(lw, dtype=np.float64)
     m = lw.max()
@@ -287,6 +308,8 @@ def _run_pipeline(case, ctx):
                     if math.isfinite(lml_b) and abs(lml_a - lml_b) > 2e-5 * (1 + abs(lml_b)):
                         ctx.violation("resample|marginal-estimate-changed", {**d, "before": lml_b, "after": lml_a})
                         return
+                    if not _check_estimate(ctx, p, fam, d, "resample"):
+                        return
                 else:
                     p = jit_run(lambda pc: rejuvenate(pc, lambda tr: mh(tr, sel("x"))), before)
                     pipeline.append("rejuvenate:mh")
@@ -303,6 +326,8 @@ def _run_pipeline(case, ctx):
                     # observations untouched, traces coherent with their own arguments
                     if not np.array_equal(np.asarray(p.traces.get_choices()["y"]), np.asarray(before.traces.get_choices()["y"])):
                         ctx.violation("rejuvenate|observation-changed", d)
+                        return
+                    if not _check_estimate(ctx, p, fam, d, "rejuvenate"):
                         return
         before = p
         prev_ret = np.asarray(before.traces.get_retval()).astype(np.int64)
@@ -402,7 +427,7 @@ def _check_move(ctx, ref, fam, p, prev_ret, lw_prev, y, use_prop, acc_ref, event
     if abs(float(p.log_marginal_estimate) - acc_ref) > 2e-5 * (1 + abs(acc_ref)):
         ctx.violation(f"{op}|accumulated-estimate-changed", {**d, "got": float(p.log_marginal_estimate), "reference": acc_ref})
         return False
-    return True
+    return _check_estimate(ctx, p, fam, d, op)
 
 
 # ---------------------------------------------------------------------------
@@ -438,7 +463,14 @@ def _run_exact(case, ctx):
         est = p.estimate(lambda c: (c["x"] == kk).astype(jnp.float32))
         return lml, est
 
+    # which time step's exact quantities each recorded (lml, estimate) pair is compared with
+    targets = list(range(T))
     if mode == "composed":
+        targets = [0]
+        for t in range(1, T):
+            if resample_at[t - 1]:
+                targets.append(t - 1)  # right after resampling: still an estimate of step t-1's quantities
+            targets.append(t)
 
         def pipeline(pv, obs_list):
             outs = []
@@ -447,6 +479,7 @@ def _run_exact(case, ctx):
             for t in range(1, T):
                 if resample_at[t - 1]:
                     p = resample(p, "categorical")
+                    outs.append(stats(p))
                 p = extend(p, model, p.traces.get_retval(), obs_list[t], q if use_prop else None)
                 outs.append(stats(p))
             return outs
@@ -471,8 +504,8 @@ def _run_exact(case, ctx):
     obs_list = [_jobs(fam, y) for y in ys]
     key = jax.random.key(0)
     cap = 3000 if ctx.tier == "quick" else 40000
-    E = np.zeros(T)
-    Eh = np.zeros(T)
+    E = np.zeros(len(targets))
+    Eh = np.zeros(len(targets))
     total = 0.0
     nleaves = 0
     try:
@@ -501,14 +534,16 @@ def _run_exact(case, ctx):
     if abs(total - 1.0) > 1e-6:
         ctx.violation("exact|script-mass-not-1", d)
         return
-    for t in range(T):
+    for j, t in enumerate(targets):
         want = float(alphas[t].sum())
         wanth = float(alphas[t][kk])
-        if abs(E[t] - want) > 1e-6 + 3e-5 * want:
-            ctx.violation(f"{mode}|E[exp(lml)]-not-evidence", {**d, "step": t, "E_exp_lml": E[t], "reference_evidence": want})
+        after_resample = mode == "composed" and j > 0 and targets[j - 1] == t
+        if abs(E[j] - want) > 1e-6 + 3e-5 * want:
+            ctx.violation(f"{mode}|E[exp(lml)]-not-evidence", {**d, "step": t, "right_after_resample": after_resample, "E_exp_lml": E[j], "reference_evidence": want})
             return
-        if abs(Eh[t] - wanth) > 1e-6 + 3e-5 * max(want, wanth):
-            ctx.violation(f"{mode}|weighted-estimate-biased", {**d, "step": t, "h": f"1[x=={kk}]", "E": Eh[t], "reference": wanth})
+        if abs(Eh[j] - wanth) > 1e-6 + 3e-5 * max(want, wanth):
+            ctx.violation(f"{mode}|weighted-estimate-biased" + ("|after-resample" if after_resample else ""),
+                          {**d, "step": t, "h": f"1[x=={kk}]", "E": Eh[j], "reference": wanth})
             return
     ctx.distinct("nontrivial", [fam["K"], fam["M"], N, T, fam["emission"], base["custom_proposal"], mode, resample_at])
     ctx.sample({"kind": "exact-unbiasedness", **{k: base[k] for k in ("K", "M", "N", "T", "emission", "mode", "observations")},
